@@ -16,6 +16,10 @@ func (t *ReadBuffers) Receive(bs []byte) ([]byte, bool, error) {
 	t.Lock()
 	defer t.Unlock()
 
+	if len(bs) < 8 {
+		// shorter than the segment header: discard
+		return nil, false, nil
+	}
 	seqNum := binary.BigEndian.Uint32(bs[:4])
 	segIdx := binary.BigEndian.Uint16(bs[6:8])
 
